@@ -4,6 +4,7 @@ explorer choices, a driver greenlet issuing API calls as environment events, and
 only observe and forward.  Shared by C01, C03, C12, C13 (and C02's slow-write machinery).
 """
 import itertools
+import re
 
 import gevent
 from gevent.event import AsyncResult
@@ -132,11 +133,21 @@ class MonitoredStore(QueueStorage):
         return r
 
     def load(self):
-        res = list(self._call('load', None, lambda: list(self.inner.load())))
-        self.qw.ev('store', 'load', None, tuple(sorted((round(t - self.qw.t0, 6), self.qw.sid(i)) for t, i in res)))
-        for t, i in res:
-            self.qw.known.add(self.qw.sid(i))
-        return res
+        """A generator like the real backends' load().  With 'load-step' in slow_ops it behaves like redis/disk/cloud:
+        the ids are listed in one go, then every record costs one I/O round trip during which other greenlets run."""
+        qw = self.qw
+        res = []
+        inner = self._call('load', None, self.inner.load)
+        if 'load-step' in qw.slow_ops:
+            inner = list(inner)
+        for entry in inner:
+            if 'load-step' in qw.slow_ops:
+                if qw.ch.choose(2, 'slow:load-step', 'sched') == 1:
+                    qw.world.env_wait('store-load-step#%d' % len(res))
+            res.append(entry)
+            qw.known.add(qw.sid(entry[1]))
+            yield entry
+        qw.ev('store', 'load', None, tuple(sorted((round(t - qw.t0, 6), qw.sid(i)) for t, i in res)))
 
     def get(self, id):
         sid = self.qw.sid(id)
@@ -209,6 +220,7 @@ class QueueWorld(object):
         self.flushes = []
         self.total_messages = 0
         self.violations = []           # (kind, detail) raised by online monitors
+        self.real_reports = {}
 
     # ---- helpers
     def sid(self, qid):
@@ -236,6 +248,9 @@ class QueueWorld(object):
                                 bounce=isinstance(envelope, Bounce), removed=False, attempts=0,
                                 content=envelope.flatten())
         self.ev('write', qid, envelope.sender, tuple(envelope.recipients), isinstance(envelope, Bounce))
+        for rec in self.bounces:
+            if rec['bounce'] is envelope:
+                rec['stored'] = True
 
     def on_get(self, qid, envelope, attempts):
         qid = self.sid(qid)
@@ -308,9 +323,10 @@ class QueueWorld(object):
         'pipe': ['ok', 'temp', 'perm', 'first-ok-rest-temp', 'first-perm-rest-ok'],
         'pipe-whole': ['ok', 'temp', 'perm'],
         'maildrop': ['ok', 'temp', 'perm'],
-        'smtp': [{}, {'rcpt0': '5'}, {'rcpt0': '4'}, {'mail': '4'}, {'data': '5'}, {'eod': '4'}, {'eod': '5'}, {'banner': 'disconnect'},
-                 {'rcpt0': '4', 'rcpt1': '5'}, {'eod': 'disconnect'}],
-        'lmtp': [{}, {'rcpt0': '5'}, {'eod0': '5'}, {'eod0': '4'}, {'eod1': '4'}, {'mail': '4'}, {'eod0': '5', 'eod1': '4'}, {'banner': 'disconnect'}],
+        'smtp': [{}, {'rcpt0': '251'}, {'rcpt0': '5'}, {'rcpt0': '4'}, {'mail': '4'}, {'data': '5'}, {'eod': '4'}, {'eod': '5'}, {'banner': 'disconnect'},
+                 {'rcpt0': '4', 'rcpt1': '5'}, {'eod': 'disconnect'}, {'connect': 'refused'}, {'mail': 'stall'}],
+        'lmtp': [{}, {'rcpt0': '5'}, {'eod0': '5'}, {'eod0': '4'}, {'eod1': '4'}, {'mail': '4'}, {'eod0': '5', 'eod1': '4'}, {'banner': 'disconnect'},
+                 {'rcpt0': '251', 'eod1': '4'}, {'rcpt0': '251', 'eod1': '5'}, {'rcpt0': '251'}, {'connect': 'refused'}, {'eod0': 'stall'}],
     }
 
     def _real_relay_attempt(self, envelope, attempts, rec, led, rcpts, k):
@@ -323,14 +339,34 @@ class QueueWorld(object):
         # ledger from the TRUTH for deliveries, from the relay's report for failure classes (C11 judges those)
         from worlds.relay_world import classify
         per, whole = classify(outcome, envelope)
+
+        def reported_reply(r):
+            v = outcome[1]
+            if outcome[0] == 'returned' and isinstance(v, dict):
+                v = v.get(r)
+            elif outcome[0] == 'returned' and isinstance(v, (list, tuple)):
+                v = v[rcpts.index(r)] if rcpts.index(r) < len(v) else None
+            rep = getattr(v, 'reply', None)
+            if rep is None:
+                return None
+            return (rep.code, rep.message)           # the text as it was when the relay reported it
+        # the same downstream behaviour must be reported the same way whatever happened before in this process
+        shape = tuple((per.get(r),) + tuple(re.sub(r' for \S+', '', x or '') for x in (reported_reply(r) or ('', ''))) for r in rcpts)
+        key = (rec['outcome'], len(rcpts))
+        first = self.real_reports.setdefault(key, shape)
+        if first != shape:
+            self.flag('relay-report-depends-on-history', 'downstream behaviour %s was reported as %r earlier in this process and as %r now'
+                      % (rec['outcome'], first, shape))
         lt = {}
         for r in rcpts:
             if r in accepted:
                 self._settle(led, r, 'ok')
             elif per.get(r) == 'perm':
-                self._settle(led, r, 'perm', ('550', None))
+                rp = reported_reply(r)
+                self._settle(led, r, 'perm', rp if rp else ('550', None))
             else:
-                lt[r] = ('450', None)
+                rp = reported_reply(r)
+                lt[r] = rp if rp else ('450', None)
         if led is not None:
             led['last_temp'] = lt
         rec['reported'] = whole
@@ -388,6 +424,8 @@ class QueueWorld(object):
         peers = []
 
         def creator(address):
+            if behaviour.get('connect') == 'refused':
+                raise _socket.error(111, 'Connection refused')
             c, s_ = net.pair(peername=address)
             p = ScriptedPeer(s_, dict(behaviour), lmtp=(kind == 'lmtp'))
             peers.append(p)
@@ -505,6 +543,13 @@ class QueueWorld(object):
             st.prefix = 'slimta:'
             st.queue_key = 'slimta:queue'
             self.fake_redis = st.redis
+            cmds = set(self.cfg.get('redis_yields', ()))
+            if cmds:
+                # each listed command is a network round trip during which other greenlets may run
+                def hook(name):
+                    if name in cmds and self.ch.choose(2, 'slow:redis-%s' % name, 'sched') == 1:
+                        w.env_wait('redis-%s#%d' % (name, st.redis.commands))
+                st.redis.yield_hook = hook
             return st
         if b == 'cloud':
             import slimta.cloudstorage as cs
@@ -531,6 +576,7 @@ class QueueWorld(object):
                 if pre.exception is not None:
                     raise HarnessError('prestore failed: %r' % (pre.exception,))
                 self.on_write(pre.value, env, self.t0 + cfg.get('prestored_due', 0.0))
+                self.known.discard(self.sid(pre.value))       # the queue learns of it through load() / wait()
             if cfg['backend'] == 'redis' and cfg.get('prestored', 0) and not cfg.get('keep_announcements', True):
                 self.fake_redis.data.pop(b'slimta:queue', None)
             store = MonitoredStore(self, inner)
@@ -539,6 +585,23 @@ class QueueWorld(object):
             bq = None
             if cfg.get('bounce_queue') == 'separate':
                 bq = RecordingBounceQueue(self)
+            elif cfg.get('bounce_queue') in ('separate-real', 'separate-real-started'):
+                # a real second Queue (storage only, no relay of its own), as in a set-up where bounces leave
+                # through a different channel; built before the main queue and possibly not started yet
+                bq = Queue(DictStorage())
+                real_enqueue = bq.enqueue
+
+                def bq_enqueue(envelope, real_enqueue=real_enqueue):
+                    self.on_bounce_enqueued(envelope)
+                    self.total_messages += 1
+                    ret = real_enqueue(envelope)
+                    for rec in self.bounces:
+                        if rec['bounce'] is envelope and ret and not isinstance(ret[0][1], BaseException):
+                            rec['stored'] = True
+                    return ret
+                bq.enqueue = bq_enqueue
+                if cfg['bounce_queue'] == 'separate-real-started':
+                    bq.start()
             factory = self.make_bounce_factory(cfg.get('bounce', 'default'))
             q = Queue(store, relay, backoff=self.monitored_backoff(make_backoff(cfg.get('backoff', 'never'))),
                       bounce_factory=factory, bounce_queue=bq,
@@ -552,6 +615,15 @@ class QueueWorld(object):
                         self.on_bounce_enqueued(envelope)
                     return orig_enqueue(envelope)
                 q.enqueue = enqueue_spy
+            else:
+                orig_enqueue = q.enqueue
+
+                def enqueue_guard(envelope):
+                    if isinstance(envelope, Bounce):
+                        self.flag('bounce-not-handed-to-configured-queue', 'a bounce for %r was enqueued on the main queue although a '
+                                  'separate bounce queue is configured' % (envelope.recipients,))
+                    return orig_enqueue(envelope)
+                q.enqueue = enqueue_guard
             w.loop.state_key = self.state_key
             w.loop.before_timer = self.on_time_advance
             q.start()
@@ -669,7 +741,7 @@ class QueueWorld(object):
 
         def factory(envelope, reply):
             rec = dict(rcpts=tuple(envelope.recipients), code=reply.code, message=reply.message, sender=envelope.sender,
-                       produced=False, enqueued=False, bounce=None, t=qw.world.now,
+                       produced=False, enqueued=False, stored=False, bounce=None, t=qw.world.now,
                        orig=envelope.flatten(), headers_only=(kind == 'headers-only'))
             qw.bounces.append(rec)
             qw.ev('bounce-factory', tuple(envelope.recipients), reply.code, reply.message)
@@ -686,7 +758,7 @@ class QueueWorld(object):
             if rec['bounce'] is bounce:
                 rec['enqueued'] = True
                 return
-        self.bounces.append(dict(rcpts=(), code=None, message=None, sender=None, produced=True, enqueued=True,
+        self.bounces.append(dict(rcpts=(), code=None, message=None, sender=None, produced=True, enqueued=True, stored=False,
                                  bounce=bounce, t=self.world.now, orig=None, headers_only=False, foreign=True))
 
     # ---- canonical state at a loop-level choice point (for merging)
@@ -732,13 +804,44 @@ class QueueWorld(object):
             return set(self.objstore.objects)
 
     def pools_full(self):
+        """a bounded pool that is full when nothing can happen any more: its members wait for ever"""
         rp, sp = getattr(self.q, 'relay_pool', None), getattr(self.q, 'store_pool', None)
-        return bool(rp is not None and sp is not None and rp.free_count() == 0 and sp.free_count() == 0)
+        return bool((rp is not None and rp.free_count() == 0) or (sp is not None and sp.free_count() == 0))
+
+    def pool_blockers(self):
+        """where the members of the full pools wait: call chains inside slimta/queue/__init__.py, e.g.
+        'store:_retry_later>_remove>_pool_spawn' (a store-pool task waiting for a slot of a pool)."""
+        out = set()
+        for which in ('store', 'relay'):
+            pool = getattr(self.q, which + '_pool', None)
+            if pool is None or pool.free_count() != 0:
+                continue
+            for g in list(pool.greenlets):
+                names = []
+                f = g.gr_frame
+                while f is not None:
+                    fn = f.f_code.co_filename
+                    if fn.endswith('slimta/queue/__init__.py'):
+                        names.append(f.f_code.co_name)
+                    elif fn.endswith('gevent/pool.py') and f.f_code.co_name in ('spawn', 'add', 'start') and not names:
+                        names.append('<pool-slot-wait>')
+                    elif fn.endswith(('gevent/lock.py', 'gevent/_semaphore.py')) and not names:
+                        names.append('<lock-wait>')
+                    f = f.f_back
+                out.add('%s:%s' % (which, '>'.join(reversed(names)) or '?'))
+        if out and all(c.endswith('_pool_spawn><pool-slot-wait>') for c in out):
+            # every member is a task that holds a slot of a bounded pool while it waits for a slot of a bounded pool
+            return 'pool-slot-wait:' + ','.join(sorted(set(c.split('>')[0] for c in out)))
+        return ','.join(sorted(out))
 
     def final_check(self):
         """Obligations on the quiescent terminal state (nothing can happen any more)."""
         stored = self.stored_ids()
         self.pool_deadlock = self.pools_full()
+        self.pool_blocked_at = self.pool_blockers() if self.pool_deadlock else ''
+        for name, before, after in self.world.changed_constants():
+            self.flag('shared-reply-constant-modified', 'the pre-defined reply slimta.smtp.reply.%s (%s) was modified in place and now reads %r: '
+                      'every later session and bounce of the process quotes the modified text' % (name, before, after))
         for rec in self.flushes:
             if rec['ret'] is None:
                 self.flag('flush-never-returned', 'flush() called at t=%g never returned' % rec['call'])
@@ -769,5 +872,8 @@ class RecordingBounceQueue(object):
     def enqueue(self, envelope):
         self.got.append(envelope)
         self.qw.on_bounce_enqueued(envelope)
+        for rec in self.qw.bounces:
+            if rec['bounce'] is envelope:
+                rec['stored'] = True
         self.qw.total_messages += 1
         return [(envelope, 'bq%d' % len(self.got))]
